@@ -37,7 +37,7 @@ def g_table(spec):
 
 MUTATIONS = ["identity", "retype", "origin", "orientation", "name", "dest_add", "dest_remove", "dest_replace",
              "unit", "colname", "colorder", "cell", "row_add", "row_remove", "col_add", "col_remove",
-             "missing_flavour", "empty_vs_full", "unrelated", "nontable"]
+             "missing_flavour", "empty_vs_full", "unrelated", "nontable", "missing_respell"]
 
 
 def mutate(rng, spec, mut):
@@ -129,7 +129,7 @@ def mutate(rng, spec, mut):
 class C14(Prop):
     id = "C14"
     coq_header = "From PdV.Corr Require Import C14."
-    rule = ("pairs (t, mutate(t)) for 20 single-aspect mutations of random tables (all column kinds, 0..6 rows), "
+    rule = ("pairs (t, mutate(t)) for 21 single-aspect mutations of random tables (all column kinds, 0..6 rows), "
             "both argument orders, plus unrelated pairs and non-table operands; expected verdict recomputed from "
             "the specifications; non-trivial = tables with at least one column; distinct = distinct pairs")
     assumptions = [
@@ -158,7 +158,20 @@ class C14(Prop):
                     if c["kind"] == "float":
                         c["values"] = [{"f": "nan"} for _ in c["values"]]
             mut = MUTATIONS[i % len(MUTATIONS)]
-            if mut == "unrelated":
+            if mut == "missing_respell":
+                # the same empty cell spelled None in one table and NaN / NaT in the other (text columns are object arrays)
+                tc = [c for c in t["cols"] if c["kind"] == "text" and len(c["values"]) >= 2]
+                while not tc:
+                    t = T.gen_table(rng, odd=True, kinds=["text", "float", "text"], max_rows=4)
+                    tc = [c for c in t["cols"] if c["kind"] == "text" and len(c["values"]) >= 2]
+                b = copy.deepcopy(t)
+                for c, cb in zip(t["cols"], b["cols"]):
+                    if c["kind"] == "text" and len(c["values"]) >= 2:     # a string stays: the column remains an object array
+                        k = rng.randrange(len(c["values"]))
+                        c["values"][k] = None
+                        cb["values"][k] = rng.choice([{"f": "nan"}, {"nat": 1}, None])
+                cases.append({"a": t, "b": b, "mut": mut})
+            elif mut == "unrelated":
                 cases.append({"a": t, "b": T.gen_table(rng), "mut": mut})
             elif mut == "nontable":
                 cases.append({"a": t, "b": None, "mut": mut, "other": rng.choice(["dict", "df", "none", "str"])})
